@@ -12,6 +12,7 @@ mod comps;
 mod gen;
 mod nest;
 mod queries;
+mod shapes;
 mod world;
 
 use comps::*;
@@ -1048,6 +1049,7 @@ fn main() {
         Some("header") => print!("{}", header()),
         Some("boundary") => boundary::run(),
         Some("cycles") => boundary::cycles(),
+        Some("shapes") => shapes::run(),
         Some("run") => {
             let text = std::fs::read_to_string(&args[2]).expect("read ops file");
             print!("{}", header());
@@ -1077,6 +1079,80 @@ fn main() {
                 }
                 let obs = st.as_mut().unwrap().exec(op);
                 println!("{}", obs);
+            }
+        }
+        Some("decs") => {
+            // C07: EVERY decision string over {c,d,b,x} up to length nmax, on one archetype (family A,
+            // query q7 = Entity<Aa> + &mut Ca) and across two matched archetypes (family B, query q2 =
+            // EntityAny + &mut Cw on Ab and Ac), each followed by the full read-back battery.
+            let nmax: usize = args.get(2).and_then(|s| s.parse().ok()).unwrap_or(4);
+            print!("{}", header());
+            let ncols: Vec<usize> = (0..NARCH).map(|a| dispatch!(a, A => <A as ArchX>::comps().len())).collect();
+            let mut seqno = 0usize;
+            let mut run_one = |plan: &[(usize, usize)], q: &str, dec: &str| {
+                reg_reset();
+                let mut st = St::new();
+                println!("seq {} decs plan={:?} q={} dec={}", seqno, plan, q, dec);
+                seqno += 1;
+                let mut ops: Vec<String> = Vec::new();
+                let caps: Vec<String> = (0..NARCH).map(|a| plan.iter().find(|(x, _)| *x == a).map(|(_, n)| n.to_string()).unwrap_or("0".into())).collect();
+                ops.push(format!("new {}", caps.join(" ")));
+                let mut tok = 0u64;
+                let mut hs: Vec<String> = Vec::new();
+                for (a, n) in plan {
+                    for _ in 0..*n {
+                        let row: Vec<String> = (0..ncols[*a]).map(|_| { tok += 1; format!("{}:{}", tok, tok % 97) }).collect();
+                        let h = format!("h{}", hs.len() + 1);
+                        ops.push(format!("create a {} {} {}", a, h, row.join(" ")));
+                        hs.push(h);
+                    }
+                }
+                ops.push(format!("iterd {} dec={} add=3 save=d1", q, dec));
+                for (a, _) in plan {
+                    ops.push(format!("rows {}", a));
+                    ops.push(format!("dump {}", a));
+                }
+                for h in &hs {
+                    ops.push(format!("probe {}", h));
+                }
+                ops.push("probe d1".to_string());
+                ops.push("events".to_string());
+                ops.push("drop 0".to_string());
+                ops.push("end".to_string());
+                for op in ops {
+                    {
+                        use std::io::Write;
+                        print!("{} => ", op);
+                        let _ = std::io::stdout().flush();
+                    }
+                    let obs = st.exec(&op);
+                    println!("{}", obs);
+                }
+            };
+            fn strings(n: usize) -> Vec<String> {
+                let mut out = vec![String::new()];
+                for _ in 0..n {
+                    let mut nx = Vec::new();
+                    for s in &out {
+                        for c in ['c', 'd', 'b', 'x'] {
+                            nx.push(format!("{}{}", s, c));
+                        }
+                    }
+                    out = nx;
+                }
+                out
+            }
+            for n in 0..=nmax {
+                for dec in strings(n) {
+                    run_one(&[(0, n)], "q7", &dec);
+                }
+            }
+            for n in 2..=nmax.min(4) {
+                for n1 in 1..n {
+                    for dec in strings(n) {
+                        run_one(&[(1, n1), (2, n - n1)], "q2", &dec);
+                    }
+                }
             }
         }
         Some("gen") => {
